@@ -584,21 +584,15 @@ func c12Cols(c *Ctx) {
 			idx = f.Params[1]
 		}
 		okSplit := false
+		valueOnTrue := true
 		var theIf *ssa.If
 		allInstrs(f, func(i ssa.Instruction) {
 			iff, ok := i.(*ssa.If)
 			if !ok {
 				return
 			}
-			for _, cm := range trueCmps(fact{iff.Cond, true}) {
-				if cm.Y == nil || cm.Op != token.LSS || cm.X != idx {
-					continue
-				}
-				yb, yo := lin(cm.Y)
-				if yo == -1 && isLenOfField(yb, cols) {
-					okSplit = true
-					theIf = iff
-				}
+			if vt, ok := colSplit(c, iff.Cond, idx, cols, 0); ok {
+				okSplit, valueOnTrue, theIf = true, vt, iff
 			}
 		})
 		if !okSplit {
@@ -619,6 +613,9 @@ func c12Cols(c *Ctx) {
 					return
 				}
 				onTrue := theIf.Block().Succs[0] == ret.Block() || theIf.Block().Succs[0].Dominates(ret.Block())
+				if !valueOnTrue {
+					onTrue = !onTrue // the branch tests "is the count column"
+				}
 				if (onTrue && v != m.before) || (!onTrue && v != m.at) {
 					okNames = false
 				}
@@ -747,12 +744,14 @@ func numInputRule(c *Ctx, rule string) {
 		c.r.bad(rule, name, "the function does not return the running maximum it computes", []string{site})
 		return
 	}
-	okInit := false
+	// the running maximum starts at 0: explicitly, or as the zero value of a variable declared without initialiser
+	okInit := true
+	if _, isAlloc := cell.(*ssa.Alloc); !isAlloc {
+		okInit = false
+	}
 	allInstrs(fn, func(i ssa.Instruction) {
 		if st, ok := i.(*ssa.Store); ok && st.Addr == cell {
-			if k, isK := constInt(st.Val); isK && k == 0 {
-				okInit = true
-			} else {
+			if k, isK := constInt(st.Val); !isK || k != 0 {
 				okInit = false
 			}
 		}
@@ -872,4 +871,70 @@ func c12RowsFresh(c *Ctx) {
 	if n == 0 {
 		c.r.undecided(rule, "<vacuity>", "no store to the row list of the rows type found")
 	}
+}
+
+// colSplit: cond separates the value columns (index < len(cols)-1) from the count column (index == len(cols)-1).
+// Accepted: any comparison of index (plus a constant) with len(cols) (plus a constant) that is equivalent to one of
+// `index < len-1` (value columns on the true branch) or `index >= len-1`, `index == len-1` (count column on the true
+// branch), a negation of one, or a call of a module predicate that returns such a comparison of its parameter.
+// valueOnTrue tells which branch the value columns take.
+func colSplit(c *Ctx, cond, idx ssa.Value, cols *types.Var, depth int) (valueOnTrue bool, ok bool) {
+	if depth > 2 {
+		return false, false
+	}
+	if u, isU := cond.(*ssa.UnOp); isU && u.Op == token.NOT {
+		v, ok := colSplit(c, u.X, idx, cols, depth+1)
+		return !v, ok
+	}
+	if call, isCall := cond.(*ssa.Call); isCall {
+		h := calleeFunc(&call.Call)
+		if h == nil || !c.w.inModule(h) || h.Blocks == nil {
+			return false, false
+		}
+		for k, a := range call.Call.Args {
+			if peelConv(a) != idx || k >= len(h.Params) {
+				continue
+			}
+			// every return of the predicate is the same kind of comparison
+			n, all, val := 0, true, false
+			allInstrs(h, func(i ssa.Instruction) {
+				ret, isRet := i.(*ssa.Return)
+				if !isRet || len(ret.Results) != 1 {
+					return
+				}
+				n++
+				v, ok := colSplit(c, ret.Results[0], h.Params[k], cols, depth+1)
+				if !ok || (n > 1 && v != val) {
+					all = false
+				}
+				val = v
+			})
+			if n > 0 && all {
+				return val, true
+			}
+		}
+		return false, false
+	}
+	for _, cm := range trueCmps(fact{cond, true}) {
+		if cm.Y == nil {
+			continue
+		}
+		x, y, op := cm.X, cm.Y, cm.Op
+		xb, xo := lin(x)
+		yb, yo := lin(y)
+		if isLenOfField(xb, cols) && peelConv(yb) == idx {
+			xb, xo, yb, yo, op = yb, yo, xb, xo, swapOp(op)
+		}
+		if peelConv(xb) != idx || !isLenOfField(yb, cols) {
+			continue
+		}
+		d := yo - xo // index op len + d
+		switch {
+		case op == token.LSS && d == -1, op == token.LEQ && d == -2, op == token.NEQ && d == -1:
+			return true, true
+		case op == token.GEQ && d == -1, op == token.GTR && d == -2, op == token.EQL && d == -1:
+			return false, true
+		}
+	}
+	return false, false
 }
